@@ -117,7 +117,7 @@ def run_jobs(jobs, procs=16):
         return pool.map(_work, jobs, chunksize=max(1, len(jobs) // (procs * 8)))
 
 
-DUMP_KEYS = {"setOrder": "set-order", "jsonKeyCollision": "json-key-collision", "serLenient": "serialize-lenient-member", "setListing": "set-listing-order", "serCollision": "set-written-with-duplicates", "yamlFloatStr": "yaml-float-string", "inPlace": "reparse-union-in-place",
+DUMP_KEYS = {"setOrder": "set-order", "firstMatch": "union-first-match", "leftTuple": "tuple-left-unserialised", "jsonKeyCollision": "json-key-collision", "serLenient": "serialize-lenient-member", "setListing": "set-listing-order", "serCollision": "set-written-with-duplicates", "yamlFloatStr": "yaml-float-string", "inPlace": "reparse-union-in-place",
              "leftObject": "enum-member-first-leaves-object", "leftSet": "enum-member-first-leaves-set",
              "excLeak": "reparse-union-vals-last", "origNested": "reparse-union-orig-nested", "litEq": "reparse-literal-eq", "dictKey": "reparse-dict-key"}
 
@@ -200,7 +200,7 @@ def main(argv):
         t = o["t"]
         info = {"type": ty.type_str(t), "t": t, "x": m["x"], "channel": m["chan"], "python": ty.python_repro(t, m["x"], m["chan"]) + "  # then validate / parse_object / dump on the result",
                 "observation": o, "notes": m["notes"], "failed_clauses": cl, "source": m["src"]}
-        where = f"{ty.type_str(t)}:{ty.canon(o['first'])[:60]}"
+        where = f"{ty.type_str(t)}:{ty.canon(ty.norm(o['first']))[:60]}"
         ref = [c for c in cl if c.startswith("ref")]
         if not ref:
             rep.add_drift("real code is a fixed point as the property says, but not as the Alg transcription predicts", info)
@@ -210,7 +210,7 @@ def main(argv):
                 rep.violation(f"validate-rejects-result:{where}", f"{ty.type_str(t)}: validate() rejects the parse result {ty.gamma_repr(o['first'])}: {m['notes'].get('validate')}", info)
             elif c.startswith("ref/second/as-alg/"):
                 for d in sorted(x_ for x_ in c.split("/as-alg/")[1].split("+") if x_):
-                    rep.violation(f"second-parse:{ty.DEV_KEYS.get(d, d)}/as-alg:{where}", f"{ty.type_str(t)}: parse_object of the result {ty.gamma_repr(o['first'])} gives "
+                    rep.violation(f"second-parse:{ty.DEV_KEYS.get(d, DUMP_KEYS.get(d, d))}/as-alg:{where}", f"{ty.type_str(t)}: parse_object of the result {ty.gamma_repr(o['first'])} gives "
                                   + (ty.canon(o["second"]) if o["sok"] else "an error: " + str(m["notes"].get("second"))) + f"; named deviation {d} of spec/Types.tla", info)
             elif c.startswith("ref/second"):
                 rep.violation(f"second-parse/other:{where}", f"{ty.type_str(t)}: parse_object of the result {ty.gamma_repr(o['first'])} gives "
